@@ -114,8 +114,19 @@ fn generate(seed: u64, tier: Tier, em: &mut Emitter) {
     for (src, steps, parts) in join_side_barrier_cases(&mut rng, tier != Tier::Quick) {
         emit_prog(em, &src, &steps, Mode::Par(parts), true, &["sweep", "join_side_barrier"]);
     }
+    // partitions emptied by an upstream filter in front of every combine (Min / Max with the
+    // extreme in an early and in a late partition, lifted / unlifted, every fan-out)
+    for (src, steps, parts, pat) in emptied_barrier_cases(tier != Tier::Quick) {
+        emit_prog(em, &src, &steps, Mode::Par(parts), true, &["sweep", "emptied_partition", pat]);
+    }
+    // more than 64 effective partitions
+    for (src, steps, parts) in many_partition_cases(tier != Tier::Quick) {
+        if !steps.iter().any(|s| matches!(s, Step::Join(..))) {
+            emit_prog(em, &src, &steps, Mode::Par(parts), true, &["sweep", "many_partitions"]);
+        }
+    }
     let mut rng = seed_mix(seed, 0xC05_0002);
-    let count = if tier == Tier::Quick { 850 } else { 7000 };
+    let count = if tier == Tier::Quick { 600 } else { 7000 };
     let mut made = 0;
     while made < count {
         let n = gen_len(&mut rng);
